@@ -15,12 +15,13 @@ Import ListNotations.
 
 (* EventDispatcher::dispatch(Args...): whatever the number of arguments, whichever of them are
    movable by-value types, whichever of them the getEvent policy reads, and whatever order the
-   compiler evaluates the arguments in: the key is computed from the caller's values and every
-   listener parameter receives the caller's value. *)
+   compiler evaluates the arguments in: the key the listeners are looked up with (key_seen: the
+   key object is a copy, not a reference into the arguments — tie A) is computed from the
+   caller's values and every listener parameter receives the caller's value. *)
 Theorem C04_dispatch_key_and_arguments_intact :
   forall n movable kread env evs,
     length env = n -> admissible n GenDisp.dispatch_shape evs ->
-    key (run movable kread false env evs) = Some (map (fun i => nth i env MovedFrom) kread) /\
+    key_seen (negb GenDisp.dispatch_key_copied) kread (run movable kread false env evs) = Some (map (fun i => nth i env MovedFrom) kread) /\
     forall i, i < n -> plookup i (params (run movable kread false env evs)) = Some (nth i env MovedFrom).
 Proof.
   intros n movable kread env evs.
@@ -33,7 +34,7 @@ Print Assumptions C04_dispatch_key_and_arguments_intact.
 Theorem C04_dispatch_first_key_and_arguments_intact :
   forall n movable kread env evs,
     length env = n -> admissible n GenDisp.dispatch_first_shape evs ->
-    key (run movable kread false env evs) = Some (map (fun i => nth i env MovedFrom) kread) /\
+    key_seen (negb GenDisp.dispatch_first_key_copied) kread (run movable kread false env evs) = Some (map (fun i => nth i env MovedFrom) kread) /\
     forall i, i < n -> plookup i (params (run movable kread false env evs)) = Some (nth i env MovedFrom).
 Proof.
   intros n movable kread env evs.
@@ -56,6 +57,13 @@ Proof.
              (fun E => match E in (_ = s) return (match s with GenDisp.Call => False | _ => True end) with eq_refl => I end) eq_refl Hl H).
 Qed.
 Print Assumptions C04_enqueue_key_and_arguments_intact.
+
+(* a key that only refers to what a reference-returning getEvent policy handed back is read after
+   the arguments were moved (seeded change C04_key_bound_by_reference): the key must be copied *)
+Theorem C04_aliased_key_refuted :
+  exists evs, admissible 1 GenDisp.Statement evs /\
+              key_seen true [0] (run (fun _ => true) [0] false [Val 7] evs) = Some [MovedFrom].
+Proof. exact aliased_key_refuted. Qed.
 
 (* regression witness (the defect repaired by 583643a): with key and forwarded arguments as
    siblings of one call, an admissible order reads the key from a moved-from argument *)
